@@ -210,3 +210,49 @@ func ZZ_C16_noPanicCanaryStrategyRemovedMidCanary() {
 	nondet.Assert("C16.strategy-removed.no-pod-deleted-meanwhile", c.Count("delete", "Pod") == 0)
 	nondet.Reach("C16.strategy-removed.canary-synced", which == rsNew.Name)
 }
+
+// ZZ_C16_noPanicRollingUpdateThroughTheSync: "for every spec the CRD schema accepts, validation and
+// reconciliation return a result or an error but never crash" — the rolling-update block through the whole
+// replica-set sync (not only the strategy function): maxUnavailable, maxPodSchedulerFailure and
+// slowStartAdditiveIncrease are int-or-string fields, so the schema accepts any string for them: a malformed
+// percentage ("abc", "%"), an out-of-range one, zero and negative numbers.  The spec is otherwise defaulted;
+// two nodes, one with an outdated pod, one without pod.  The sync of the active replica set returns.
+func ZZ_C16_noPanicRollingUpdateThroughTheSync() {
+	c, ds, rsNew, _ := zzStore(2)
+	ds.Status.ActiveReplicaSet = rsNew.Name
+	pick := func(label string) *intstr.IntOrString {
+		var v intstr.IntOrString
+		switch nondet.String(label, "default", "abc", "%", "150%", "0", "-1") {
+		case "default":
+			return nil
+		case "abc":
+			v = intstr.FromString("abc")
+		case "%":
+			v = intstr.FromString("%")
+		case "150%":
+			v = intstr.FromString("150%")
+		case "0":
+			v = intstr.FromInt(0)
+		default:
+			v = intstr.FromInt(-1)
+		}
+		return &v
+	}
+	if v := pick("maxUnavailable"); v != nil {
+		ds.Spec.Strategy.RollingUpdate.MaxUnavailable = v
+	}
+	if v := pick("maxPodSchedulerFailure"); v != nil {
+		ds.Spec.Strategy.RollingUpdate.MaxPodSchedulerFailure = v
+	}
+	if v := pick("slowStartAdditiveIncrease"); v != nil {
+		ds.Spec.Strategy.RollingUpdate.SlowStartAdditiveIncrease = v
+	}
+	c.Pods = append(c.Pods, zzPod("outdated", zzNodeName(0), zzOldRS, zzHashOld, 0, corev1.PodRunning, true, nondet.Base().Add(-3600*1e9)))
+	accepted := datadoghqv1alpha1.ValidateExtendedDaemonSetSpec(&ds.Spec) == nil && datadoghqv1alpha1.IsDefaultedExtendedDaemonSet(ds)
+	_, err := zzReconcile(zzReconciler(c, false), zzNS, rsNew.Name)
+	nondet.Observe("error", err != nil)
+	nondet.Observe("accepted", accepted)
+	// the replica set is still there, whatever the sync made of the spec
+	nondet.Assert("C16.rolling-sync.returns", len(c.ERS) == 2)
+	nondet.Reach("C16.rolling-sync.malformed-accepted", accepted && err != nil)
+}
